@@ -7,122 +7,124 @@
 (*                                                                             *)
 (* Levels are named by numbers: resolutions (standard layout, /resolutions/<r>)  *)
 (* or zoom indices (legacy layout, /<i>).  A level is "absent", "partial" (its    *)
-(* group exists but the collection is not finished: Create!Prepare..before       *)
+(* group exists but the collection is not finished: Create!Prepare .. before     *)
 (* Create!Finish) or "done"; a done level has a CONTENT IDENTITY <<b, f>> =       *)
 (* "base b coarsened by the factor f".  Coarsening a level <<b, f>> by m gives    *)
-(* <<b, f * m>> - this is the composition law of C08 (model-checked in           *)
-(* MC_Coarsen and validated on the code by co.algebra), used here as an axiom.    *)
+(* <<b, f * m>> - the composition law of C08 (model-checked in MC_Coarsen and     *)
+(* validated on the code by co.algebra), used here as an axiom.                  *)
 (*                                                                             *)
 (* Standard layout (zoomify_cooler):                                            *)
-(*   Truncate+CopyBase(b) for every base, in ANY order (a Python set), the first  *)
-(*   one truncating the output file;                                            *)
-(*   for i in order of increasing resolution, skipping bases:                    *)
-(*      BeginLevel(r)  (group created)   FinishLevel(r)  (format attribute)      *)
-(*   reading level pred(r) = the largest smaller member that divides r;          *)
+(*   CopyBase(b) for every base, in ANY order (a Python set), the first one      *)
+(*   truncating the output file;                                                *)
+(*   for the derived levels in increasing order: BeginLevel (group created)      *)
+(*   FinishLevel (format attribute), reading the predecessor level;              *)
 (*   Mark: root attribute format = HDF5::MCOOL.                                  *)
 (* Legacy layout (legacy_zoomify): level n = copy of the base (n = quad-tree      *)
 (*   depth), then levels n-1 .. 0, each coarsening the one above by 2; then the   *)
-(*   root attributes max-zoom and one bin size per level.                        *)
-EXTENDS Naturals, Integers, Sequences, FiniteSets
+(*   root attributes (max-zoom, one bin size per level).                         *)
+(* The instance (wanted set, bases, layout) is chosen in Init and never changes. *)
+EXTENDS ZoomOps, TLC
 
-CONSTANTS Wanted,        \* standard: the set of resolutions to write (bases included); legacy: unused
-          Bases,         \* the base resolutions (subset of Wanted)
-          Legacy,        \* BOOLEAN
-          Depth          \* legacy: the quad-tree depth n
+CONSTANTS MaxRes, MaxDepth,
+          MarkEarly      \* a broken variant (the multires mark written before the levels) that TLC must refute
 
-VARIABLES lv,            \* level name -> "absent" | "partial" | "done"
+VARIABLES wanted, bases, legacy, depth,     \* the instance
+          lv,            \* level name -> "absent" | "partial" | "done"
           content,       \* level name -> <<base, factor>> (meaningful when done)
-          fmt,           \* standard: root carries format = HDF5::MCOOL; legacy: root carries max-zoom
-          pc,            \* "copy" | "levels" | "mark" | "finished" | "crashed"
-          cur            \* the level being written (0 = none)
-vars == <<lv, content, fmt, pc, cur>>
+          mark,          \* standard: root carries format = HDF5::MCOOL; legacy: root carries max-zoom
+          pc,            \* "copy" | "levels" | "mark" | "finished" | "crashed" | "refused"
+          cur            \* the level being written + 1 (0 = none)
+vars == <<wanted, bases, legacy, depth, lv, content, mark, pc, cur>>
+inst == <<wanted, bases, legacy, depth>>
 
-Max(S) == CHOOSE x \in S : \A y \in S : y <= x
-Min(S) == CHOOSE x \in S : \A y \in S : x <= y
-Names == IF Legacy THEN 0..Depth ELSE Wanted
-\* the predecessor relation of get_multiplier_sequence (Coarsen!PredOf on sets): 0 = none
-Pred(r) == LET c == {q \in Wanted : q < r /\ r % q = 0} IN IF c = {} THEN 0 ELSE Max(c)
-RECURSIVE Derivable(_)
-Derivable(r) == r \in Bases \/ \E q \in Wanted : q < r /\ r % q = 0 /\ Derivable(q)
-Refused == \E r \in Wanted \ Bases : Pred(r) = 0
-\* the base a derived level descends from, following predecessors
-RECURSIVE RootOf(_)
-RootOf(r) == IF r \in Bases THEN r ELSE RootOf(Pred(r))
-RECURSIVE Pow2(_)
-Pow2(n) == IF n = 0 THEN 1 ELSE 2 * Pow2(n - 1)
+Names == IF legacy THEN 0..depth ELSE wanted
+Pred(r) == ZPred(wanted, bases, r)
 
-Init == /\ lv = [r \in Names |-> "absent"] /\ content = [r \in Names |-> <<0, 0>>]
-        /\ fmt = FALSE /\ pc = "copy" /\ cur = 0
+Init == /\ \/ /\ legacy = FALSE /\ depth = 0
+              /\ \E W \in SUBSET (1..MaxRes) : W # {} /\ wanted = W /\ \E B \in SUBSET W : B # {} /\ bases = B
+           \/ /\ legacy = TRUE /\ wanted = {} /\ bases = {} /\ depth \in 0..MaxDepth
+        /\ lv = [r \in Names |-> "absent"] /\ content = [r \in Names |-> <<0, 0>>]
+        /\ mark = FALSE /\ pc = "copy" /\ cur = 0
 
 ---------------------------------------------------------------------------
 (* standard layout *)
-Copied == {b \in Bases : lv[b] = "done"}
-CopyBase(b) == /\ ~Legacy /\ pc = "copy" /\ ~Refused /\ b \in Bases \ Copied
-               \* the first copy truncates the file (mode w): whatever was there is gone - Init has nothing
+Refuse == /\ ~legacy /\ pc = "copy" /\ ZRefused(wanted, bases) /\ pc' = "refused"       \* before anything is written
+          /\ UNCHANGED <<inst, lv, content, mark, cur>>
+Copied == {b \in bases : lv[b] = "done"}
+CopyBase(b) == /\ ~legacy /\ pc = "copy" /\ ~ZRefused(wanted, bases) /\ b \in bases \ Copied
                /\ lv' = [lv EXCEPT ![b] = "done"] /\ content' = [content EXCEPT ![b] = <<b, 1>>]
-               /\ pc' = IF Copied \cup {b} = Bases THEN "levels" ELSE "copy"
-               /\ UNCHANGED <<fmt, cur>>
-NextLevel == LET todo == {r \in Wanted \ Bases : lv[r] = "absent"} IN IF todo = {} THEN 0 ELSE Min(todo)
-BeginLevel == /\ ~Legacy /\ pc = "levels" /\ cur = 0 /\ NextLevel # 0
-              /\ cur' = NextLevel /\ lv' = [lv EXCEPT ![NextLevel] = "partial"]
-              /\ UNCHANGED <<content, fmt, pc>>
-FinishLevel == /\ ~Legacy /\ pc = "levels" /\ cur # 0
-               /\ lv' = [lv EXCEPT ![cur] = "done"]
-               /\ content' = [content EXCEPT ![cur] = <<content[Pred(cur)][1], content[Pred(cur)][2] * (cur \div Pred(cur))>>]
-               /\ cur' = 0 /\ UNCHANGED <<fmt, pc>>
-ToMark == /\ ~Legacy /\ pc = "levels" /\ cur = 0 /\ NextLevel = 0 /\ pc' = "mark" /\ UNCHANGED <<lv, content, fmt, cur>>
-Mark == /\ pc = "mark" /\ fmt' = TRUE /\ pc' = "finished" /\ UNCHANGED <<lv, content, cur>>
+               /\ pc' = IF Copied \cup {b} = bases THEN "levels" ELSE "copy"
+               /\ UNCHANGED <<inst, mark, cur>>
+Todo == {r \in wanted \ bases : lv[r] = "absent"}
+BeginLevel == /\ ~legacy /\ pc = "levels" /\ cur = 0 /\ Todo # {}
+              /\ cur' = ZMin(Todo) + 1 /\ lv' = [lv EXCEPT ![ZMin(Todo)] = "partial"]
+              /\ UNCHANGED <<inst, content, mark, pc>>
+FinishLevel == /\ ~legacy /\ pc = "levels" /\ cur # 0
+               /\ LET r == cur - 1 IN
+                    /\ lv' = [lv EXCEPT ![r] = "done"]
+                    /\ content' = [content EXCEPT ![r] = <<content[Pred(r)][1], content[Pred(r)][2] * (r \div Pred(r))>>]
+               /\ cur' = 0 /\ UNCHANGED <<inst, mark, pc>>
+ToMark == /\ pc = "levels" /\ cur = 0 /\ (IF legacy THEN \A i \in Names : lv[i] # "absent" ELSE Todo = {})
+          /\ pc' = "mark" /\ UNCHANGED <<inst, lv, content, mark, cur>>
+Mark == /\ pc = "mark" /\ mark' = TRUE /\ pc' = "finished" /\ UNCHANGED <<inst, lv, content, cur>>
 
----------------------------------------------------------------------------
-(* legacy layout: names are zoom indices; base at Depth; index i has factor 2^(Depth - i) *)
-LCopy == /\ Legacy /\ pc = "copy"
-         /\ lv' = [lv EXCEPT ![Depth] = "done"] /\ content' = [content EXCEPT ![Depth] = <<1, 1>>]
-         /\ pc' = "levels" /\ UNCHANGED <<fmt, cur>>
-LNext == LET todo == {i \in Names : lv[i] = "absent"} IN IF todo = {} THEN -1 ELSE Max(todo)
-LBegin == /\ Legacy /\ pc = "levels" /\ cur = 0 /\ LNext # -1
-          /\ cur' = LNext + 1                       \* cur holds index + 1 (0 = none)
-          /\ lv' = [lv EXCEPT ![LNext] = "partial"] /\ UNCHANGED <<content, fmt, pc>>
-LFinish == /\ Legacy /\ pc = "levels" /\ cur # 0
-           /\ lv' = [lv EXCEPT ![cur - 1] = "done"]
-           /\ content' = [content EXCEPT ![cur - 1] = <<content[cur][1], content[cur][2] * 2>>]
-           /\ cur' = 0 /\ UNCHANGED <<fmt, pc>>
-LToMark == /\ Legacy /\ pc = "levels" /\ cur = 0 /\ LNext = -1 /\ pc' = "mark" /\ UNCHANGED <<lv, content, fmt, cur>>
+(* legacy layout: names are zoom indices; the base sits at index depth; index i has factor 2^(depth - i) *)
+LCopy == /\ legacy /\ pc = "copy"
+         /\ lv' = [lv EXCEPT ![depth] = "done"] /\ content' = [content EXCEPT ![depth] = <<1, 1>>]
+         /\ pc' = "levels" /\ UNCHANGED <<inst, mark, cur>>
+LTodo == {i \in Names : lv[i] = "absent"}
+LBegin == /\ legacy /\ pc = "levels" /\ cur = 0 /\ LTodo # {}
+          /\ cur' = ZMax(LTodo) + 1 /\ lv' = [lv EXCEPT ![ZMax(LTodo)] = "partial"]
+          /\ UNCHANGED <<inst, content, mark, pc>>
+LFinish == /\ legacy /\ pc = "levels" /\ cur # 0
+           /\ LET i == cur - 1 IN
+                /\ lv' = [lv EXCEPT ![i] = "done"]
+                /\ content' = [content EXCEPT ![i] = <<content[i + 1][1], content[i + 1][2] * 2>>]
+           /\ cur' = 0 /\ UNCHANGED <<inst, mark, pc>>
+
+EarlyMark == /\ MarkEarly /\ pc = "levels" /\ ~mark /\ mark' = TRUE /\ UNCHANGED <<inst, lv, content, pc, cur>>
 
 \* exception or process death between two steps: nothing is undone, nothing more is written
-Crash == /\ pc \in {"copy", "levels", "mark"} /\ pc' = "crashed" /\ UNCHANGED <<lv, content, fmt, cur>>
+Crash == /\ pc \in {"copy", "levels", "mark"} /\ pc' = "crashed" /\ UNCHANGED <<inst, lv, content, mark, cur>>
 
-Next == (\E b \in Bases : CopyBase(b)) \/ BeginLevel \/ FinishLevel \/ ToMark \/ Mark
-        \/ LCopy \/ LBegin \/ LFinish \/ LToMark \/ Crash
-Spec == Init /\ [][Next]_vars
+Next == Refuse \/ (\E b \in bases : CopyBase(b)) \/ BeginLevel \/ FinishLevel \/ ToMark \/ Mark
+        \/ LCopy \/ LBegin \/ LFinish \/ Crash \/ EarlyMark
+Spec == Init /\ [][Next]_vars /\ WF_vars(Refuse \/ (\E b \in bases : CopyBase(b)) \/ BeginLevel \/ FinishLevel \/ ToMark \/ Mark
+                                         \/ LCopy \/ LBegin \/ LFinish)
 
 ---------------------------------------------------------------------------
-(* what a reader sees: fileops.is_multires_file / list_coolers *)
 Done == {r \in Names : lv[r] = "done"}
-\* standard: root format attribute AND the first level BY NAME (decimal strings compare lexically, so "10" < "5") is a
-\* cooler; legacy: the level named 0 is a cooler.  `first` is given by the trace (the harness cannot sort for the model
-\* without becoming an oracle): here, conservatively, SOME present level.
-RecognisedStd(first) == fmt /\ lv[first] = "done"
+\* fileops.is_multires_file: standard - root format attribute AND the first level BY NAME (whichever that is) is a
+\* cooler; legacy - the level named 0 is a cooler
+RecognisedStd(first) == mark /\ lv[first] = "done"
 RecognisedLegacy == lv[0] = "done"
 
 (* properties *)
 \* C09: every level that exists as a cooler equals DIRECT coarsening of a base by the ratio of resolutions, whatever the
-\* chain of intermediate levels was
+\* chain of intermediate levels was; a base level is the copy of its own cooler
 LevelsAreDirectCoarsenings ==
-  \A r \in Done : IF Legacy THEN content[r] = <<1, Pow2(Depth - r)>>
-                  ELSE content[r][1] \in Bases /\ content[r][1] * content[r][2] = r /\ content[r][1] = RootOf(r)
-\* a level is read only when it is done (the predecessor of the level being written)
-NeverReadsUnfinished == cur # 0 => IF Legacy THEN lv[cur] = "done" ELSE (Pred(cur) # 0 /\ lv[Pred(cur)] = "done")
-\* C09 + C13: the file is recognised as multi-resolution only when every wanted level is complete
+  \A r \in Done : IF legacy THEN content[r] = <<1, Pow2(depth - r)>>
+                  ELSE /\ content[r][1] \in bases /\ content[r][1] * content[r][2] = r
+                       /\ content[r][1] = ZRootOf(wanted, bases, r)
+                       /\ r \in bases => content[r] = <<r, 1>>
+\* a level is read only when it is done
+NeverReadsUnfinished == cur # 0 => IF legacy THEN lv[cur] = "done" ELSE (Pred(cur - 1) # 0 /\ lv[Pred(cur - 1)] = "done")
+\* C09 + C13: the file is recognised as multi-resolution only when every level is complete
 RecognisedOnlyWhenComplete ==
-  IF Legacy THEN RecognisedLegacy => Done = Names
+  IF legacy THEN RecognisedLegacy => Done = Names
   ELSE \A first \in Names : RecognisedStd(first) => Done = Names
 \* at most one level is unfinished, and it is the one being written
-AtMostOnePartial == \A r \in Names : lv[r] = "partial" => (IF Legacy THEN cur = r + 1 ELSE cur = r)
-\* what a crash leaves: a PREFIX of the step order (used by the trace specification to judge killed runs)
-PrefixShape ==
-  IF Legacy THEN \A i, j \in Names : (i < j /\ lv[i] # "absent") => lv[j] = "done"
-  ELSE /\ (\E r \in Wanted \ Bases : lv[r] # "absent") => Bases \subseteq Done
-       /\ \A r, s \in Wanted \ Bases : (r < s /\ lv[s] # "absent") => lv[r] = "done"
-\* the run ends (no deadlock short of finished / crashed) unless the set is refused
-Terminal == pc \in {"finished", "crashed"} \/ (~Legacy /\ Refused)
+AtMostOnePartial == \A r \in Names : lv[r] = "partial" => cur = r + 1
+\* what a crash leaves is a PREFIX of the step order - the predicate the trace specification applies to killed runs
+PrefixShape == IF legacy THEN PrefixShapeLegacy(depth, lv) ELSE PrefixShapeStd(wanted, bases, lv, mark)
+\* nothing is written for a refused set
+RefusedWritesNothing == pc = "refused" => (Done = {} /\ ~mark /\ \A r \in Names : lv[r] = "absent")
+RefusalIsNonDerivability == (~legacy /\ pc = "refused") => \E r \in wanted : ZPred(wanted, bases, r) = 0 /\ r \notin bases
+\* liveness: every run ends finished, crashed or refused
+Terminates == <>(pc \in {"finished", "crashed", "refused"})
+FinishedIsComplete == pc = "finished" => (Done = Names /\ mark)
+\* the quad-tree depth the code computes is the least cover (small scope)
+ASSUME DepthAgreesOnSmallScope == \A total \in 1..40, b0 \in 1..3, tile \in {1, 2, 4} :
+                  /\ QuadtreeDepthA(total, b0, tile) = QuadtreeDepth(total, b0, tile)
+                  /\ DepthIsMinimalCover(total, b0, tile, QuadtreeDepth(total, b0, tile))
 =============================================================================
